@@ -647,14 +647,13 @@ int main(int argc, char **argv) {
     if (!nsel) { fprintf(stderr, "mcargs: unknown --routine %s\n", routine); return 2; }
 
     /* the case list of this slice (global numbering: routine, baseline, singles, ordered pairs) */
-    long total = 0, singles = 0, npairs = 0, nviol_kinds = 0;
+    long total = 0, my_singles = 0;
     for (int pass = 0; pass < 2; pass++) {
         long g = 0, k = 0;
         for (int r = 0; r < NRT; r++) if (sel[r]) for (int b = 0; b < RT_NBASE[r]; b++) {
             int nv = VL[r][b].nv;
-            for (int i = 0; i < nv; i++, g++) if (g % nslice == islice) { if (pass) { CASES[k].rt = (short)r; CASES[k].base = (short)b; CASES[k].v1 = (short)i; CASES[k].v2 = -1; } k++; }
+            for (int i = 0; i < nv; i++, g++) if (g % nslice == islice) { if (!pass) my_singles++; if (pass) { CASES[k].rt = (short)r; CASES[k].base = (short)b; CASES[k].v1 = (short)i; CASES[k].v2 = -1; } k++; }
             if (pairs) for (int i = 0; i < nv; i++) for (int j = 0; j < nv; j++) if (i != j) { if (g % nslice == islice) { if (pass) { CASES[k].rt = (short)r; CASES[k].base = (short)b; CASES[k].v1 = (short)i; CASES[k].v2 = (short)j; } k++; } g++; }
-            if (!pass) { singles += nv; nviol_kinds += nv; if (pairs) npairs += (long)nv * (nv - 1); }
         }
         if (!pass) { total = g; NCASES = k; CASES = xmalloc(sizeof(case_t) * (k + 1)); }
     }
@@ -672,10 +671,10 @@ int main(int argc, char **argv) {
         fprintf(vf_out, "{\"type\":\"sigcount\",\"property\":\"%s\",\"prec\":\"%c\",\"sig\":", PROP, PCH); out_str(vf_out, G->sigs[i].sig);
         fprintf(vf_out, ",\"count\":%ld}\n", G->sigs[i].count);
     }
-    out_stats(PROP, "\"routine\":\"%s\",\"pairs\":%d,\"slice\":\"%d/%d\",\"cases_total\":%ld,\"cases_slice\":%ld,\"cases_done\":%ld,\"single_violations\":%ld,\"ordered_pairs\":%ld,"
+    out_stats(PROP, "\"routine\":\"%s\",\"pairs_mode\":\"%s\",\"slice\":\"%d/%d\",\"cases\":%ld,\"cases_total\":%ld,\"single_cases\":%ld,\"pair_cases\":%ld,"
               "\"baselines_checked\":%ld,\"baselines_legal\":%ld,\"complete\":%s,\"runs\":%ld,\"judged\":%ld,\"skipped\":%ld,\"violations\":%ld,\"violating_cases\":%ld,"
-              "\"rejected_clean\":%ld,\"not_rejected\":%ld,\"deaths\":%ld,\"signatures\":%d,\"options_perm_fields_written\":%ld,\"distinct_outcomes\":%ld,\"wall_s\":%.2f",
-              routine, pairs, islice, nslice, total, NCASES, done, singles, npairs, G->baselines, G->baselines_ok, complete ? "true" : "false",
-              G->runs, G->judged, G->skipped, G->viol, G->viol_cases, G->detected_ok, G->undetected, G->deaths, G->nsig, G->opt_perm_written, G->distinct, now_s() - t0);
+              "\"rejected_clean\":%ld,\"not_rejected\":%ld,\"deaths\":%ld,\"options_perm_fields_written\":%ld,\"distinct_outcomes\":%ld,\"wall_s\":%.2f",
+              routine, pairs ? "on" : "off", islice, nslice, done, NCASES, my_singles, NCASES - my_singles, G->baselines, G->baselines_ok, complete ? "true" : "false",
+              G->runs, G->judged, G->skipped, G->viol, G->viol_cases, G->detected_ok, G->undetected, G->deaths, G->opt_perm_written, G->distinct, now_s() - t0);
     return 0;
 }
